@@ -604,6 +604,19 @@ def _cli(ctx: Ctx, st: dict) -> Any:
     return ctx.clients[st.get("client", "0")]
 
 
+def _stop_cb(ctx: Ctx, a: "Actor", st: dict) -> Any:
+    if st.get("no_on_stop"):
+        return None
+    if st.get("stop_kind") == "plain_raises":
+        # an application bug: a plain function where a coroutine function is expected, and it raises
+        def broken(expected: bool) -> None:
+            ctx.world.rec("user_on_stop", tag=st.get("stop_tag", a.aid), expected=bool(expected), raises=True)
+            raise RuntimeError("application stop callback failed")
+
+        return broken
+    return _user_on_stop(ctx, st.get("stop_tag", a.aid))
+
+
 def _user_on_stop(ctx: Ctx, tag: str, client_key: str = "0") -> Callable:
     async def on_stop(expected: bool) -> None:
         w = ctx.world
@@ -661,12 +674,12 @@ async def _s_wait(ctx: Ctx, a: Actor, st: dict) -> Any:
 
 @step("connect")
 async def _s_connect(ctx: Ctx, a: Actor, st: dict) -> Any:
-    await _cli(ctx, st).connect(on_stop=None if st.get("no_on_stop") else _user_on_stop(ctx, st.get("stop_tag", a.aid)), login=st.get("login", False))
+    await _cli(ctx, st).connect(on_stop=_stop_cb(ctx, a, st), login=st.get("login", False))
 
 
 @step("start")
 async def _s_start(ctx: Ctx, a: Actor, st: dict) -> Any:
-    await _cli(ctx, st).start_connection(on_stop=None if st.get("no_on_stop") else _user_on_stop(ctx, st.get("stop_tag", a.aid)))
+    await _cli(ctx, st).start_connection(on_stop=_stop_cb(ctx, a, st))
 
 
 @step("cmd")
